@@ -317,6 +317,10 @@ func init() {
 			d := ex.digest("sha256", 32, termsOf(args[0]))
 			return Array(termsToValues(d))
 		})
+		p.reg("crypto/sha512.Sum512", func(ex *Exec, fr *Frame, args []Value) Value {
+			d := ex.digest("sha512", 64, termsOf(args[0]))
+			return Array(termsToValues(d))
+		})
 		p.reg("github.com/multiformats/go-multihash.Sum", func(ex *Exec, fr *Frame, args []Value) Value {
 			data := termsOf(args[0])
 			code := args[1].(*Term)
@@ -341,6 +345,9 @@ func init() {
 			if l >= 0 {
 				if l > len(d) {
 					return Tuple{[]Value(nil), ex.newErrorString("requested length was too large for digest")}
+				}
+				if code.val == 0 && l != len(d) {
+					return Tuple{[]Value(nil), ex.newErrorString("the length of the identity hash must be equal to the length of the data")}
 				}
 				d = d[:l]
 			}
